@@ -31,6 +31,12 @@ func groupShape(groups [][]majEntry) string {
 func configuredParams(g *genReq, s *dmpSnap) string {
 	mp, _ := g.M["methodParameters"].(M)
 	p := s.Params
+	// the declared valuesRange of a request criterion is the range in force when the method runs
+	for _, cs := range g.crits {
+		if cr, ok := s.crit(cs.id); ok && (cr.HasRng != cs.hasRng || (cs.hasRng && (cr.Lo != cs.lo || cr.Hi != cs.hi))) {
+			return fmt.Sprintf("criterion %s declares the range %v [%v,%v]; the range in force when the method runs is %v [%v,%v]", cs.id, cs.hasRng, cs.lo, cs.hi, cr.HasRng, cr.Lo, cr.Hi)
+		}
+	}
 	// the considered alternatives reach the method in the order of choseToMake (the fixed search order)
 	if fmt.Sprint(idsOfAlts(s.Cons)) != fmt.Sprint(g.chose) {
 		return fmt.Sprintf("the considered alternatives reach the method as %v, choseToMake lists them as %v", idsOfAlts(s.Cons), g.chose)
@@ -63,6 +69,38 @@ func configuredParams(g *genReq, s *dmpSnap) string {
 	return ""
 }
 
+// addedRangesKept: a criterion added by a bias reaches the method with the attributes it was handed on with
+func addedRangesKept(tr *trace) string {
+	if tr == nil || tr.Eval == nil {
+		return ""
+	}
+	first := map[string]critSnap{}
+	for _, e := range tr.Bias {
+		for _, cr := range e.Out.Crit {
+			if _, seen := first[cr.Id]; !seen {
+				if _, inIn := e.In.crit(cr.Id); !inIn {
+					first[cr.Id] = cr
+				}
+			}
+		}
+	}
+	for _, cr := range tr.Eval.Before.Crit {
+		if f, ok := first[cr.Id]; ok && f != cr {
+			return fmt.Sprintf("criterion '%s' was added as %+v but reaches the method as %+v", cr.Id, f, cr)
+		}
+	}
+	return ""
+}
+
+// warmUpSibling: in a fresh process the first use of a level function may come from the other heuristic
+func warmUpSibling(c *caseCtx, method string) {
+	if c.idx%8 != 0 {
+		return
+	}
+	g := genRequest(c.rng, genOpts{method: method, minAlt: 2, maxAlt: 3, minCrit: 1, maxCrit: 2})
+	decide(g.body(), false)
+}
+
 func c11Check(c *caseCtx, g *genReq, d decision, tag string) {
 	c.count("evaluations", 1)
 	if !d.OK {
@@ -80,6 +118,10 @@ func c11Check(c *caseCtx, g *genReq, d decision, tag string) {
 	}
 	s := &ev.Before
 	if msg := configuredParams(g, s); msg != "" {
+		c.violate("configured-parameter-lost", msg, M{"request": g.M})
+		return
+	}
+	if msg := addedRangesKept(d.Trace); msg != "" {
 		c.violate("configured-parameter-lost", msg, M{"request": g.M})
 		return
 	}
@@ -195,6 +237,9 @@ func c11Sampled(c *caseCtx) {
 	if c.rng.Intn(2) == 0 {
 		o.profile = profTies
 	}
+	if c.rng.Intn(10) == 0 {
+		o.fixedOrder, o.minAlt, o.maxAlt = true, 13, 24
+	}
 	if c.rng.Intn(8) == 0 {
 		// prices around 2.45e6 that differ by 1..3, weights around 1.2e6: differences far above the 1e-6 tolerance
 		o.bigNumbers, o.profile, o.noRange = true, profTies, true
@@ -242,6 +287,10 @@ func c12Check(c *caseCtx, g *genReq, d decision) {
 	}
 	s := &ev.Before
 	if msg := configuredParams(g, s); msg != "" {
+		c.violate("configured-parameter-lost", msg, M{"request": g.M})
+		return
+	}
+	if msg := addedRangesKept(d.Trace); msg != "" {
 		c.violate("configured-parameter-lost", msg, M{"request": g.M})
 		return
 	}
@@ -365,6 +414,10 @@ func c12Sampled(c *caseCtx) {
 	if c.rng.Intn(8) == 0 {
 		o.nearTiedW, o.distinctW, o.minCrit = true, false, 2 // distinct weights 1e-7 apart: still "heaviest first"
 	}
+	if o.fixedOrder && c.rng.Intn(6) == 0 {
+		o.minAlt, o.maxAlt = 13, 24 // sorting / copying strategies change above a dozen elements
+	}
+	warmUpSibling(c, "satisfactionHeuristic")
 	g := genRequest(c.rng, o)
 	nearThreshold(c, g)
 	c12Check(c, g, decide(g.body(), true))
@@ -406,6 +459,10 @@ func c13Check(c *caseCtx, g *genReq, d decision) {
 	}
 	s := &ev.Before
 	if msg := configuredParams(g, s); msg != "" {
+		c.violate("configured-parameter-lost", msg, M{"request": g.M})
+		return
+	}
+	if msg := addedRangesKept(d.Trace); msg != "" {
 		c.violate("configured-parameter-lost", msg, M{"request": g.M})
 		return
 	}
@@ -503,6 +560,10 @@ func c13Sampled(c *caseCtx) {
 	if c.rng.Intn(3) != 0 {
 		o.fixedOrder = true
 	}
+	if o.fixedOrder && c.rng.Intn(6) == 0 {
+		o.minAlt, o.maxAlt, o.profile = 13, 24, profTies // many alternatives accepted at the same level
+	}
+	warmUpSibling(c, "aspectEliminationHeuristic")
 	g := genRequest(c.rng, o)
 	nearThreshold(c, g)
 	c13Check(c, g, decide(g.body(), true))
